@@ -260,3 +260,133 @@ def e5(ctx):
         nones = [e for e in res.log if e["kind"] == "ret0" and not e["chain"] and unwrap_variant(e["value"], "Ok") is not None and tag(unwrap_variant(e["value"], "Ok")) == "variant" and unwrap_variant(e["value"], "Ok")[2] == "None"]
         ok = bool(nones) and all(("cmp", "Eq", ("size_of", "T"), const(0)) in ctx.facts_of(ev, e) for e in nones)
         yield Ob(key_of("C04-E5", b.path, "none-only-for-zst"), ok, "alloc_in returns Ok(None) only when size_of T == 0", b.loc())
+
+
+TYMAX = {"u8": 2**8 - 1, "u16": 2**16 - 1, "u32": 2**32 - 1, "u64": 2**64 - 1, "usize": 2**64 - 1, "i64": 2**63 - 1, "i32": 2**31 - 1, "isize": 2**63 - 1}
+
+# E6 justification table: (function, op, role) -> the invariant that bounds the operation.  Exact keys only; the role is computed from the operand terms.
+ARITH_JUSTIFIED = {
+    ("from_offset", "Add", "node+8"): "offset of a node on the list + 8 <= node + 8 + data size <= cap (list invariant, C10 / C01-R3)",
+    ("alloc_slow_path_optimistic", "Add", "data_offset+request"): "request <= data size of the head segment (dominating guard) and node + 8 + data size <= cap",
+    ("alloc_slow_path_pessimistic", "Add", "data_offset+request"): "request <= data size of the chosen segment (search predicate) and node + 8 + data size <= cap",
+    ("align_bytes_to", "Add", "ptr_offset+ptr_size"): "end of the accessible range of a Meta just built by an allocation body: <= memory_offset + memory_size <= cap (C03-A3, C01-B2)",
+    ("align_to", "Add", "ptr_offset+ptr_size"): "end of the accessible range of a Meta just built by an allocation body: <= cap (C03-A2)",
+    ("try_new_segment", "Add", "aligned-u32-offset+8 (usize)"): "the aligned offset is a u32 value widened to usize (align_offset::<AtomicU64>(offset) as usize): adding the node size cannot leave usize",
+    ("increase_discarded", "Add", "discarded+n"): "discarded accounting (C20): the sum of released bytes; bounded by the bytes handed out since the last clear()",
+}
+
+
+def _arith_role(a):
+    x, y = a["a"], a["b"]
+    sx, sy = show(x), show(y)
+    if a["op"] == "Add" and a["body"].name in ("align_bytes_to", "align_to"):
+        return "ptr_offset+ptr_size"
+    if a["op"] == "Add" and is_const(y) and y.c == 8 and (tag(x) == "lo" or (isinstance(x, Lin) and len(x.m) == 1 and tag(list(x.m)[0]) == "lo")):
+        return "node+8"
+    if a["op"] == "Add" and isinstance(x, Lin) and x.c == 8 and any(tag(t) == "lo" for t in x.m):
+        return "data_offset+request"
+    if a["op"] == "Add" and "ptr_offset" in sx and "ptr_size" in sy or ("ptr_size" in sx and "ptr_offset" in sy):
+        return "ptr_offset+ptr_size"
+    if a["op"] == "Add" and "discarded" in sx:
+        return "discarded+n"
+    if a["op"] == "Add" and a.get("ty") == "usize" and is_const(y) and y.c == 8 and tag(x) == "alignUp" and x[1] == const(8):
+        return "aligned-u32-offset+8 (usize)"
+    return "%s(%s, %s)" % (a["op"], short(x, 40), short(y, 40))
+
+
+def _bounds_for(terms, body):
+    """upper bounds of atoms as `bound - atom >= 0` facts: type widths that the terms do not carry themselves"""
+    out = []
+    seen = set()
+
+    def visit(t):
+        if isinstance(t, Lin):
+            for a in t.m:
+                visit(a)
+            return
+        if not isinstance(t, tuple) or t in seen:
+            return
+        seen.add(t)
+        tg = tag(t)
+        if tg == "size_of":
+            out.append(sub(const(2**63 - 1), t))
+        elif tg == "align_of":
+            out.append(sub(const(2**29), t))
+        elif tg in ("hi", "lo"):
+            out.append(sub(const(2**32 - 1), t))
+        elif tg == "field" and t[2] == "max_retries":
+            out.append(sub(const(255), t))
+        elif tg == "field" and t[2] in ("cap", "data_offset", "ptr_offset", "ptr_size", "memory_offset", "memory_size"):
+            out.append(sub(const(2**32 - 1), t))
+        elif tg == "param":
+            out.append(sub(const(2**32 - 1), t))      # every integer parameter of the allocation bodies is a u32 (checked below)
+        for y in t[1:]:
+            if isinstance(y, (tuple, Lin)):
+                visit(y)
+    for t in terms:
+        visit(t)
+    return out
+
+
+@rule("C04-E6", "C04", 6, "no arithmetic reachable from an allocation entry point can overflow its type (panic with overflow checks, wrap-around without): every Add / Sub / Mul is "
+      "bounded by the dominating guards and type widths, or by an arena invariant named in ARITH_JUSTIFIED (exact function / role keys)")
+def e6(ctx):
+    for fl in FLAVOURS:
+        for name in ("alloc_bytes", "alloc_aligned_bytes", "alloc"):
+            b = ctx.facts.one(r"^<%s::Arena as allocator::Allocator>::%s$" % (fl, name))
+            ev, res = ctx.eval(b, max_depth=8)
+            seen = set()
+            n_sites = 0
+            for a in res.log:
+                if a["kind"] != "arith" or a.get("unchecked"):
+                    continue
+                k = (a["body"].path, a["bb"], a["si"], tuple(c for c in a["chain"]))
+                if k in seen:
+                    continue
+                seen.add(k)
+                n_sites += 1
+                fs = set(canon(f) for f in ctx.facts_of(ev, a))
+                # a value returned by the position search satisfies the search predicate on every Some-returning path
+                for c in res.log:
+                    if c["kind"] == "call" and c.get("inlined") and c["callee"].endswith("find_prev_and_next") and c["seq"] < a["seq"]:
+                        fs |= set(canon(f) for f in callee_variant_facts(ctx, ev, c, ("Some",)))
+                x, y = canon(a["a"]), canon(a["b"])
+                order = Order(fs, extra_ge0=_bounds_for([x, y], a["body"]))
+                a2 = dict(a, a=x, b=y)
+                mx = TYMAX.get(a.get("ty") or "", None)
+                if a["op"] == "Sub":
+                    ok = order.le(y, x)
+                elif a["op"] == "Add":
+                    ok = overflow_discharged(order, a2) or (mx is not None and order.le(add(x, y), const(mx)))
+                else:
+                    ok = is_const(x) and is_const(y)
+                why = ""
+                role = None
+                if not ok:
+                    role = _arith_role(a2)
+                    j = ARITH_JUSTIFIED.get((a["body"].name, a["op"], role))
+                    if j:
+                        ok, why = True, " [invariant: %s]" % j
+                if not ok:
+                    yield Ob(key_of("C04-E6", a["body"].path, "%s:%s" % (a["op"].lower(), re.sub(r"[#@][\w/.]+", "", role))), False,
+                             "%s(%s, %s) in %s (%s) is not bounded by any dominating guard, type width or named invariant: it panics when overflow checks are on "
+                             "and wraps around when they are off" % (a["op"], short(x, 70), short(y, 70), a["body"].name, a.get("ty")), ctx.loc(a))
+            # narrowing casts of a type's size (usize -> u32): sizes of 4 GiB and more must be refused, not truncated
+            seenc = set()
+            for c in res.log:
+                if c["kind"] != "cast" or c.get("ty") != "u32" or not isinstance(c["value"], (tuple, Lin)):
+                    continue
+                lv = as_lin(c["value"])
+                if not lv.m or not all(tag(t) in ("size_of", "align_of") for t in lv.m) or not any(tag(t) == "size_of" for t in lv.m):
+                    continue    # only casts of a type's (padded) size; offsets are u32 values widened for pointer arithmetic
+                k = (c["body"].path, c["bb"], c.get("si"))
+                if k in seenc:
+                    continue
+                seenc.add(k)
+                fs = set(canon(f) for f in ctx.facts_of(ev, c))
+                v = canon(c["value"])
+                okc = Order(fs).le(v, const(2**32 - 1))
+                if not okc:
+                    yield Ob(key_of("C04-E6", c["body"].path, "narrowing-cast-of-type-size"), False,
+                             "`%s as u32` is not bounded by a dominating guard: for a type of 4 GiB or more the size is truncated and the handle is smaller than the type" % short(v, 70), ctx.loc(c))
+            yield Ob(key_of("C04-E6", b.path, "arith-sites"), n_sites >= 3, "%d arithmetic site(s) reachable from %s, each bounded or justified" % (n_sites, name), b.loc())
